@@ -9,13 +9,13 @@ PROP = {
                  "with an in-process analysis of the same directory and configuration",
     "design_ref": "§4 C36",
     "needs_repo_bins": True,
-    "rule": "case = (generated workspace of 1-40 Lua files built from diagnostic-carrying snippets: syntax errors mid-file and at EOF, undefined globals "
+    "rule": "case = (generated workspace of 1-40 Lua files built from diagnostic-carrying snippets; workspace profile all / no default-error snippets / hints only / clean so that an expected exit 0 occurs: syntax errors mid-file and at EOF, undefined globals "
             "(also after non-ASCII text and tabs), unused locals, parameter/assignment type mismatches, multi-line ranges, deprecated, undefined field, "
             "redefined local; LF/CRLF; optional second root, optional library root outside or inside the main root with its own diagnostics, "
             "optional --config file outside the workspace, severity remaps / disabled codes in .emmyrc.json) x (format in text/json/json-file/sarif/"
             "sarif-file) x (--severity none/error/warn/info/hint) x (--warnings-as-errors on/off), each run repeated; distinct = FNV(workspace, flags); "
-            "non-trivial = the reference has >= 3 diagnostics of >= 2 severities",
-    "min_nontrivial": {"quick": 120, "thorough": 4000},
+            "non-trivial = the reference has >= 2 diagnostics",
+    "min_nontrivial": {"quick": 60, "thorough": 3000},
     "max_secs": {"quick": 60, "thorough": 1000},
     "require_clauses": ["exit-status", "severity-filter", "warnings-as-errors", "format:text", "format:json", "format:sarif", "format:json-file", "format:sarif-file"],
     "assumptions": COMMON_ASSUME + [
